@@ -36,8 +36,6 @@ import (
 	"github.com/cosmos/cosmos-sdk/x/authz"
 	banktypes "github.com/cosmos/cosmos-sdk/x/bank/types"
 	stakingtypes "github.com/cosmos/cosmos-sdk/x/staking/types"
-	"github.com/ethereum/go-ethereum/common"
-	ethtypes "github.com/ethereum/go-ethereum/core/types"
 
 	"github.com/haqq-network/haqq/app/ante"
 	cosmosante "github.com/haqq-network/haqq/app/ante/cosmos"
@@ -93,10 +91,10 @@ type arNode struct {
 
 type arInput struct {
 	Msgs []arNode `json:"msgs"`
-	Opts []string `json:"opts"` // E W D U (type url + decoded value), Ex Wx Dx (type url, no decoded value)
+	Opts []string `json:"opts"`              // E W D U (type url + decoded value), Ex Wx Dx (type url, no decoded value)
 	NonC []string `json:"noncrit,omitempty"` // non_critical_extension_options, same alphabet
-	Sign string   `json:"sign"` // none | cosmos | eip712 | eth
-	Dis  []int    `json:"dis"`  // disabled url list given to the stand-alone AuthzLimiterDecorator
+	Sign string   `json:"sign"`              // none | cosmos | eip712 | eth
+	Dis  []int    `json:"dis"`               // disabled url list given to the stand-alone AuthzLimiterDecorator
 }
 
 // error enum shared with Ante/RouteModel.v
@@ -529,7 +527,7 @@ func (x *arEnv) tryEIP712(in arInput, msgs []sdk.Msg) (tx sdk.Tx, ok bool) {
 		return nil, false
 	}
 	b, err := utiltx.PrepareEIP712CosmosTx(x.e.Ctx, x.e.App, utiltx.EIP712TxArgs{
-		CosmosTxArgs: utiltx.CosmosTxArgs{TxCfg: x.txCfg, Priv: x.priv, ChainID: x.e.Ctx.ChainID(), Gas: arGas, Fees: x.fee(), Msgs: msgs},
+		CosmosTxArgs:       utiltx.CosmosTxArgs{TxCfg: x.txCfg, Priv: x.priv, ChainID: x.e.Ctx.ChainID(), Gas: arGas, Fees: x.fee(), Msgs: msgs},
 		UseLegacyExtension: true, UseLegacyTypedData: true,
 	})
 	if err != nil {
@@ -610,10 +608,10 @@ func arRunHandler(ctx sdk.Context, h sdk.AnteHandler, tx sdk.Tx, check bool) (co
 // nesting levels or at the order of checks.
 type arFacts struct {
 	ethAnywhere, ethTop, ethInExec, allTopEth bool
-	disInExec                                  map[int]bool // url indices found directly inside some MsgExec
-	grants                                     map[int]bool // url indices granted anywhere
-	depth, width, nodes, execs                 int
-	malformed                                  bool
+	disInExec                                 map[int]bool // url indices found directly inside some MsgExec
+	grants                                    map[int]bool // url indices granted anywhere
+	depth, width, nodes, execs                int
+	malformed                                 bool
 }
 
 func arWalk(ns []arNode, inExec bool, depth int, f *arFacts) {
@@ -1017,9 +1015,8 @@ func arGen(r *Rng) arInput {
 	case shape < 30:
 		// a chain of execs around the nesting cap, blocked item as last sibling at the bottom
 		d := 1 + r.Intn(10)
-		bottom := arGenTree(r, 0, 3, new(int), false, true, r.Bool())
 		b := 4
-		bottom = arGenTree(r, 0, 3, &b, malformed, true, r.Bool())
+		bottom := arGenTree(r, 0, 3, &b, malformed, true, r.Bool())
 		if r.Bool() {
 			bottom = append(bottom, arGenLeaf(r, malformed, true))
 		}
@@ -1199,6 +1196,3 @@ func arDriver(cfg Config, out *Out) error {
 	}
 	return nil
 }
-
-var _ = common.Address{}
-var _ ethtypes.Signer
